@@ -223,6 +223,76 @@ func k1() *sched.Scenario {
 		}}
 }
 
+// k12: the response arrives at the instant the LAST timer of the transaction is due (RTO 100 ms: transmissions
+// at 0, 0.1, 0.3, 0.7, 1.5, 3.1 and 4.7 s, failure at 6.3 s). Whichever of the two wins, the caller returns once,
+// with the response or with the time-out error, and the client is usable afterwards: a second transaction is
+// answered and Close returns.
+func k12() *sched.Scenario {
+	return &sched.Scenario{Name: "K12-response-at-the-final-timeout", Bound: bound(), FreeBound: 3, Opt: opt,
+		Body: func(*vsched.Sched) (func() []string, func()) {
+			w := newCWorld(100 * time.Millisecond)
+			var nt notes
+			vsched.Go("app", func() {
+				req := bindingReq()
+				res, err := w.cl.PerformTransaction(req, w.srvAddr, false)
+				switch {
+				case err != nil:
+					nt.set("app", "error:"+errKind(err))
+				case res.Msg == nil || res.Msg.TransactionID != req.TransactionID:
+					nt.set("app", "foreign-response")
+				default:
+					nt.set("app", "response")
+				}
+			})
+			vsched.Go("server", func() {
+				d, _ := w.next("server")
+				m, err := wire.Parse(d.Data)
+				if err != nil {
+					return
+				}
+				vsched.IdleSleep(6300*time.Millisecond - time.Nanosecond) // the final timer is due in 1 ns
+				vsched.Mark()
+				w.reply(wire.New(wire.Binding, wire.Success, m.TxID).XorAddr(wire.AttrXORMappedAddress, net.IPv4(10, 0, 0, 2), 4000).Bytes())
+				vsched.IdleSleep(time.Second)
+				w.srv.Drain() // the retransmissions of the first transaction
+				vsched.Go("app2", func() {
+					req := bindingReq()
+					res, err := w.cl.PerformTransaction(req, w.srvAddr, false)
+					if err == nil && res.Msg != nil && res.Msg.TransactionID == req.TransactionID {
+						nt.set("app2", "response")
+					} else {
+						nt.set("app2", "failed")
+					}
+				})
+				d2, _ := w.next("server")
+				if m2, err := wire.Parse(d2.Data); err == nil {
+					w.reply(wire.New(wire.Binding, wire.Success, m2.TxID).XorAddr(wire.AttrXORMappedAddress, net.IPv4(10, 0, 0, 2), 4000).Bytes())
+				}
+				vsched.IdleSleep(time.Second)
+				w.cl.Close()
+				nt.set("closer", "done")
+			})
+
+			return func() []string {
+				var out []string
+				switch nt.get("app") {
+				case "":
+					out = append(out, "c12:transaction-never-returned")
+				case "foreign-response":
+					out = append(out, "c12:returned-another-transactions-response")
+				}
+				if nt.get("app2") != "response" {
+					out = append(out, "c12:client-unusable-after-a-response-at-the-final-timeout:second-transaction-"+nt.get("app2"))
+				}
+				if nt.get("closer") != "done" {
+					out = append(out, "c12:close-never-returned")
+				}
+
+				return out
+			}, func() { _ = w.cs.Close() }
+		}}
+}
+
 func errKind(err error) string {
 	s := err.Error()
 	switch {
@@ -599,7 +669,7 @@ func k7() *sched.Scenario {
 		}}
 }
 
-func TestC12Sched(t *testing.T) { run(t, "C12", k1(), k1b(), k6(), k7()) }
+func TestC12Sched(t *testing.T) { run(t, "C12", k1(), k1b(), k6(), k7(), k12()) }
 // k8: two goroutines close the relayed socket at the same time (the library
 // itself is the second closer when a ChannelBind is refused): both calls
 // return, exactly one of them without error, nothing panics.
@@ -832,4 +902,4 @@ func k11() *sched.Scenario {
 }
 
 func TestC13Sched(t *testing.T) { run(t, "C13", k2(), k3(), k5(), k8(), k10(), k11()) }
-func TestC18Client(t *testing.T) { run(t, "C18", k1(), k1b(), k2(), k3(), k5(), k6(), k7(), k8(), k9(), k10()) }
+func TestC18Client(t *testing.T) { run(t, "C18", k1(), k1b(), k2(), k3(), k5(), k6(), k7(), k8(), k9(), k10(), k12()) }
